@@ -29,6 +29,10 @@ def history(rng, length, nmax=6, p_measure=0.25):
                 if rng.random() < 0.15:
                     g = ("dgr", g)
                 e = g if e is None else ("mul", e, g)
+                # the same factor again, directly next to itself (once or twice): a gate and its repetition are not
+                # a special case for a product
+                while rng.random() < 0.2:
+                    e = ("mul", e, g)
             acts.append(("apply", e))
         elif r < 0.55 + p_measure:
             m = rng.randrange(1 << n) if n else 0
